@@ -39,7 +39,7 @@ def _ark_consts(facts):
 
 def _ext(facts, selfty, name, trait=None):
     for t in facts.get("trait_consts", []):
-        if t["self"] == selfty and t["name"] == name and (trait is None or t["trait"].endswith(trait)) and "value" in t:
+        if t["self"] == selfty and t["name"] == name and (trait is None or t["trait"].split("::")[-1] == trait) and "value" in t:
             return t["value"].get("val")
     return None
 
